@@ -97,6 +97,27 @@ W.contract(
 )
 
 
+# transpile_single hands every token to transpile_token unchanged (nothing is cached or lowered on a side path):
+# the same clauses, proved over transpile_token's contract (a caller sees only that contract)
+_TT = W.contracts["vyxal/transpile.py::transpile_token"]
+
+
+def _rn(e):
+    return e.replace("token", "token_or_struct").replace("uncompressed_text(token_or_struct)", "uncompressed_text(token_or_struct)")
+
+
+W.contract(
+    "vyxal/transpile.py::transpile_single#token",
+    params=dict(token_or_struct=TOKEN, indent=INT, dict_compress=BOOL), result=STR,
+    requires=[_rn(r) for r in _TT.requires],
+    ensures=[_rn(e) for e in _TT.ensures],
+    ensures_names=["single-" + n for n in _TT.ensures_names],
+    fuel=0, semantic_prune=True, may_raise=("ValueError",),
+    note="a token reaches transpile_token with the same indent and compression flag; its text is returned as is",
+    props=["C05", "C06", "C18"],
+)
+
+
 # ---------------------------------------------------------------- C06 / C18: the string chain
 @W.spec([STR, STR, STR], STR)
 def repl1(s, c, r):
@@ -263,4 +284,61 @@ W.lemma(
     fuel=0,
     props=["C06"],
     note="backslash and back-quote are not dictionary digits, so the escaped form of a string without dictionary digits has none either (precondition of uncompress_dict's contract)",
+)
+
+
+# ---------------------------------------------------------------- glue: transpile is exactly tokenise -> parse -> transpile_ast
+from pyvc.templates import uf as _uf  # noqa: E402
+from pyvc.sym import VAL_SORT as _VS  # noqa: E402
+
+
+def _named(name, n):
+    f = UFn(name, [VAL] * n, VAL, note=f"the result of {name[4:]}(...) (names the callee's result; nothing is assumed about it)")
+    f.z = _uf(name, [_VS] * n, _VS)
+    return f
+
+
+W.clause_globals.update(r_tokenise=_named("app_tokenise", 2), r_parse=_named("app_parse", 1), r_transpile_ast=_named("app_transpile_ast", 2))
+W.contract(
+    "vyxal/transpile.py::transpile#glue",
+    params=dict(program=VAL, dict_compress=VAL, variables_as_digraphs=VAL), result=VAL,
+    ensures=["result == r_transpile_ast(r_parse(r_tokenise(program, variables_as_digraphs)), dict_compress)"],
+    executor="template", fuel=0, frame_check=False, may_raise=True,
+    note="no side path: the text returned for a program is transpile_ast(parse(tokenise(program, digraphs)), dict_compress=dict_compress), whatever the program",
+    props=["C05", "C06", "C18", "C02"],
+)
+
+
+# ---------------------------------------------------------------- helpers.uncompress: the dispatcher itself, one case per token kind
+# (the base contract above names its result for callers; these cases tie the real dispatcher to the decoders of C15
+#  and to uncompress_dict, so that a fast path or a cache in front of them fails an obligation)
+from . import codecs as _codecs  # noqa: E402,F401
+
+_NUMA = "vyxal.encoding.codepage_number_compress"
+_STRA = "vyxal.encoding.codepage_string_compress"
+W.contract(
+    "vyxal/helpers.py::uncompress#number",
+    params=dict(token=TOKEN), result=INT,
+    requires=["token.name == TokenType.COMPRESSED_NUMBER"],
+    ensures=[f"result == horner(idxs(token.value, {_NUMA}), len({_NUMA}))"],
+    ensures_names=["compressed-number-is-the-base-255-value"],
+    note="a compressed-number token is decoded by uncompress_num, whatever its characters",
+    props=["C18", "C15", "C06"],
+)
+W.contract(
+    "vyxal/helpers.py::uncompress#cstring",
+    params=dict(token=TOKEN), result=STR,
+    requires=["token.name == TokenType.COMPRESSED_STRING", f"horner(idxs(token.value, {_STRA}), len({_STRA})) >= 0"],
+    ensures=[f"result == chars_at(digitsM(horner(idxs(token.value, {_STRA}), len({_STRA})), 27), vyxal.encoding.base_27_alphabet)"],
+    ensures_names=["compressed-string-is-the-base-27-text"],
+    props=["C18", "C15", "C06"],
+)
+W.contract(
+    "vyxal/helpers.py::uncompress#string",
+    params=dict(token=TOKEN), result=STR,
+    requires=["token.name == TokenType.STRING", "strbody(token.value)", f"none_in(token.value, {COMPRESSION})"],
+    ensures=["result == token.value"],
+    ensures_names=["string-without-dictionary-digits-is-itself"],
+    note="a back-quoted string without dictionary digits is returned as it stands (uncompress_dict's contract)",
+    props=["C06", "C18"],
 )
